@@ -2,12 +2,15 @@ package c16
 
 import (
 	"fmt"
+	"runtime"
 	"sort"
 	"strings"
 	"sync"
+	"sync/atomic"
 	"testing"
 	"time"
 
+	"github.com/inbucket/inbucket/v3/pkg/extension"
 	"github.com/inbucket/inbucket/v3/pkg/extension/event"
 	"github.com/inbucket/inbucket/v3/pkg/policy"
 	"github.com/inbucket/inbucket/v3/pkg/storage"
@@ -578,17 +581,155 @@ var propRace = hx.Prop[RCase]{
 	},
 }
 
+// ---- (d) the very first events of a listener, emitted from several goroutines at once ----
+
+// FCase: on a fresh Host, Emitters goroutines leave a barrier together; each emits the stored
+// and then the deleted event of a message of its own. Repeated Rounds times, a fresh Host each.
+type FCase struct {
+	Emitters int  `json:"emitters"`
+	Rounds   int  `json:"rounds"`
+	Both     bool `json:"both"`  // the listener name is registered on both after-event brokers (else only on 'stored', a second name on 'deleted')
+	Work     int  `json:"work"`  // the listener spins this many scheduler yields per call
+	Extra    int  `json:"extra"` // further stored events per emitter after the pair
+}
+
+var propFirst = hx.Prop[FCase]{
+	ID: pid, Name: "first",
+	Rule: "on a freshly constructed extension.Host (as at server start, or for a listener name registered just now) 2-8 goroutines leave a spin " +
+		"barrier together and each emits stored(m), deleted(m) and 0-3 further stored events of its own messages through the public brokers; " +
+		"20-60 rounds per case, a fresh Host each; oracle: a listener name is never inside two invocations at once, every event arrives exactly " +
+		"once, and each emitter's events arrive in its emission order (stored before deleted); non-trivial = at least 3 emitters; distinct = distinct case JSON",
+	Quick: 40, Thorough: 400,
+	Gen: func(t *rapid.T) FCase {
+		return FCase{Emitters: rapid.IntRange(2, 8).Draw(t, "emitters"), Rounds: rapid.IntRange(20, 60).Draw(t, "rounds"), Both: rapid.Bool().Draw(t, "both"),
+			Work: rapid.SampledFrom([]int{0, 1, 5}).Draw(t, "work"), Extra: rapid.IntRange(0, 3).Draw(t, "extra")}
+	},
+	Run: runFirst,
+}
+
+func runFirst(c FCase) *hx.Outcome {
+	o := &hx.Outcome{}
+	for round := 0; round < c.Rounds && !o.Failed(); round++ {
+		host := extension.NewHost()
+		var mu sync.Mutex
+		inside := map[string]int{}
+		reentered := ""
+		var got []string
+		enter := func(name, tag string) {
+			mu.Lock()
+			inside[name]++
+			if inside[name] > 1 && reentered == "" {
+				reentered = fmt.Sprintf("listener %q entered for %s while its previous invocation had not returned", name, tag)
+			}
+			got = append(got, tag)
+			mu.Unlock()
+			for i := 0; i < c.Work; i++ {
+				runtime.Gosched()
+			}
+			mu.Lock()
+			inside[name]--
+			mu.Unlock()
+		}
+		delName := "probe"
+		if !c.Both {
+			delName = "probe-deleted"
+		}
+		host.Events.AfterMessageStored.AddListener("probe", func(m event.MessageMetadata) { enter("probe", "stored:"+m.ID) })
+		host.Events.AfterMessageDeleted.AddListener(delName, func(m event.MessageMetadata) { enter(delName, "deleted:"+m.ID) })
+		var ready, wg sync.WaitGroup
+		var goFlag atomic.Bool
+		var want [][]string
+		for e := 0; e < c.Emitters; e++ {
+			id := fmt.Sprintf("e%d", e)
+			seq := []string{"stored:" + id, "deleted:" + id}
+			for x := 0; x < c.Extra; x++ {
+				seq = append(seq, fmt.Sprintf("stored:%s.%d", id, x))
+			}
+			want = append(want, seq)
+			ready.Add(1)
+			wg.Add(1)
+			go func(seq []string) {
+				defer wg.Done()
+				ready.Done()
+				for !goFlag.Load() {
+				}
+				for _, tag := range seq {
+					md := event.MessageMetadata{Mailbox: "box", ID: tag[strings.IndexByte(tag, ':')+1:], Date: hx.BaseTime}
+					if strings.HasPrefix(tag, "stored:") {
+						host.Events.AfterMessageStored.Emit(&md)
+					} else {
+						host.Events.AfterMessageDeleted.Emit(&md)
+					}
+				}
+			}(seq)
+		}
+		ready.Wait()
+		goFlag.Store(true)
+		wg.Wait()
+		total := 0
+		for _, s := range want {
+			total += len(s)
+		}
+		deadline := time.Now().Add(10 * time.Second)
+		for {
+			mu.Lock()
+			n := len(got)
+			mu.Unlock()
+			if n >= total || time.Now().After(deadline) {
+				break
+			}
+			time.Sleep(200 * time.Microsecond)
+		}
+		time.Sleep(time.Millisecond) // grace for duplicates
+		mu.Lock()
+		if reentered != "" {
+			o.Failf(pid+":listener-reentered", "round %d, %d emitters on a fresh Host: %s", round, c.Emitters, reentered)
+		}
+		count := map[string]int{}
+		pos := map[string]int{}
+		for i, g := range got {
+			count[g]++
+			pos[g] = i
+		}
+		for _, seq := range want {
+			for i, tag := range seq {
+				if count[tag] != 1 {
+					o.Failf(pid+":event-accounting", "round %d, %d emitters on a fresh Host: event %s arrived %d times (all: %v)", round, c.Emitters, tag, count[tag], got)
+				} else if i > 0 && count[seq[i-1]] == 1 && c.Both && pos[seq[i-1]] > pos[tag] {
+					o.Failf(pid+":event-order", "round %d, %d emitters on a fresh Host: %s observed before %s, emitted after it by the same goroutine (all: %v)", round, c.Emitters, tag, seq[i-1], got)
+				}
+			}
+		}
+		if len(got) != total && !o.Failed() {
+			o.Failf(pid+":event-accounting", "round %d: %d events arrived, %d emitted: %v", round, len(got), total, got)
+		}
+		mu.Unlock()
+	}
+	o.Class(fmt.Sprintf("%d emitters", c.Emitters))
+	if c.Both {
+		o.Class("one name on both brokers")
+	}
+	o.NonTrivial = c.Emitters >= 3
+	return o
+}
+
 func TestProp(t *testing.T) {
 	t.Run("events", prop.Check)
 	t.Run("probe", propProbe.Check)
 	t.Run("racing", propRace.Check)
+	t.Run("first", propFirst.Check)
 }
-func TestRegress(t *testing.T) { prop.Regress(t); propProbe.Regress(t); propRace.Regress(t) }
+func TestRegress(t *testing.T) {
+	prop.Regress(t)
+	propProbe.Regress(t)
+	propRace.Regress(t)
+	propFirst.Regress(t)
+}
 func TestReplay(t *testing.T) {
 	if *hx.ReplayPath == "" {
 		t.Skip("no -replay")
 	}
-	if !prop.Replay(t, *hx.ReplayPath) && !propProbe.Replay(t, *hx.ReplayPath) && !propRace.Replay(t, *hx.ReplayPath) {
+	if !prop.Replay(t, *hx.ReplayPath) && !propProbe.Replay(t, *hx.ReplayPath) && !propRace.Replay(t, *hx.ReplayPath) && !propFirst.Replay(t, *hx.ReplayPath) {
 		t.Fatalf("no prop matches %s", *hx.ReplayPath)
 	}
 }
